@@ -148,8 +148,9 @@ def userattr(run, fx):
     for _, e in sa.elements():
         if e['k'] == 'BinaryOperator' and e['op'] == '=':
             l = sa.strip(e['c'][0])
-            if l['k'] == 'ArraySubscriptExpr':
-                b = sa.strip_all_casts(l['c'][0])
+            ea = sa.elem_access(l)
+            if ea:
+                b = sa.strip_all_casts(ea[0])
                 if b['k'] == 'MemberExpr' and b['d'] == 'graphite2::Slot::m_userAttr':
                     stores.append((e, l))
     if not stores:
@@ -183,21 +184,24 @@ def userattr(run, fx):
             inst = 'setAttr store@%s after remap@%s' % (e['ln'], r['ln'])
             if sb not in sa.reachable_from(rb):
                 continue
-            # every path rb -> sb must take a guard edge
-            def reach_without():
-                seen, st = set(), [rb]
+            # every path entry -> remap -> store must take a guard edge (before or after the remap)
+            def _reach(src, dst):
+                seen, st = set(), [src]
                 while st:
                     b = st.pop()
                     if b in seen:
                         continue
                     seen.add(b)
-                    if b == sb:
+                    if b == dst:
                         return True
                     for idx, s in enumerate(sa.blocks[b]['succ']):
                         if s is None or (b, idx) in guard_edges:
                             continue
                         st.append(s)
                 return False
+
+            def reach_without():
+                return _reach(sa.entry, rb) and _reach(rb, sb)
             if guard_edges and not reach_without():
                 run.held('USERATTR', inst, sa.loc(e), 'legacy user-attribute code reaches m_userAttr[] only when numAttrs() != 0')
             else:
@@ -210,14 +214,15 @@ def userattr(run, fx):
     ga = fx.one('graphite2::Slot::getAttr')
     reads = []
     for _, e in ga.elements():
-        if e['k'] == 'ArraySubscriptExpr':
-            b = ga.strip_all_casts(e['c'][0])
+        ea = ga.elem_access(e) if e['k'] in ('ArraySubscriptExpr', 'UnaryOperator') else None
+        if ea:
+            b = ga.strip_all_casts(ea[0])
             if b['k'] == 'MemberExpr' and b['d'] == 'graphite2::Slot::m_userAttr':
                 reads.append(e)
     if not reads:
         raise AnalysisBroken('Slot::getAttr: read of m_userAttr not found')
     for e in reads:
-        idx = ga.render(ga.strip_all_casts(e['c'][1]))
+        idx = ga.render(ga.strip_all_casts(ga.elem_access(e)[1]))
         fs = dom.facts_at(ga, e['i'])
         ok = [f for f in fs if f[0] == idx and f[1] == '<' and 'numAttrs()' in f[2]]
         inst = 'getAttr read@%s' % e['ln']
@@ -361,14 +366,6 @@ def const_(run, vm):
         run.violated('CONST', 'Rules::m_rules extent', r['file'], 'm_rules[%s] but 2*MAX_RULES = %d' % (f.get('extent'), 2 * mr))
     # runFSM: free_slots initialised from MAX_SLOTS, pushSlot in the loop only after `--free_slots != 0`
     rf = fx.one('graphite2::Pass::runFSM')
-    _, d = find_decl(rf, 'free_slots')
-    if d is None:
-        raise AnalysisBroken('Pass::runFSM: free_slots not found')
-    iv = rf.strip_all_casts(d['init'])
-    if iv.get('v') == ms and 'MAX_SLOTS' in rf.render(iv):
-        run.held('CONST', 'runFSM free_slots init', rf.where(), 'free_slots = SlotMap::MAX_SLOTS', False)
-    else:
-        run.violated('CONST', 'runFSM free_slots init', rf.where(), 'free_slots starts at %s, not SlotMap::MAX_SLOTS (%d)' % (rf.render(iv), ms))
     # the number of pushSlot calls on any path through runFSM, computed from the constant-initialised counter (rules/constloop.py):
     # SlotMap::pushSlot stores at m_slot_map[++m_size], m_size is 0 after reset, the array has MAX_SLOTS + 1 cells
     from .constloop import max_calls
@@ -381,37 +378,53 @@ def const_(run, vm):
     else:
         run.violated('CONST', 'runFSM slot budget', rf.where(), 'Pass::runFSM can call pushSlot %d times on one path; m_slot_map has MAX_SLOTS + 1 = %d cells and pushSlot '
                      'writes m_slot_map[++m_size], so at most %d pushes fit: the last push overwrites the members that follow the array' % (n, ms + 1, ms))
-    # accumulate_rules: every store through `out` is dominated by out != lrend, lrend = out + MAX_RULES
+    # accumulate_rules: every store through the output cursor is dominated by cursor != (its start + MAX_RULES); the cursor starts in the half
+    # of m_rules that is not in use.  Roles, not names: the output cursor is the non-const RuleEntry* local that is stored through.
     ar = fx.one('graphite2::FiniteStateMachine::Rules::accumulate_rules')
-    _, d = find_decl(ar, 'lrend')
-    if d is None or 'MAX_RULES' not in ar.render(d['init']) or not ar.render(d['init']).replace(' ', '').startswith('(out+'):
-        run.violated('CONST', 'accumulate_rules lrend', ar.where(), 'lrend is %s, expected out + MAX_RULES' % (ar.render(d['init']) if d else None))
-    else:
-        run.held('CONST', 'accumulate_rules lrend', ar.where(), 'lrend = out + MAX_RULES', False)
-    _, d = find_decl(ar, 'out')
-    otxt = ar.render(d['init']) if d else ''
-    if 'MAX_RULES' in otxt and 'm_rules' in otxt:
-        run.held('CONST', 'accumulate_rules out', ar.where(), otxt, False)
-    else:
-        run.violated('CONST', 'accumulate_rules out', ar.where(), 'out starts at %s, expected m_rules + (m_begin == m_rules)*MAX_RULES' % otxt)
     stores = []
     for _, e in ar.elements():
-        if e['k'] == 'CXXOperatorCallExpr' and (e.get('fq') or '').endswith('RuleEntry::operator=') or \
-                (e['k'] == 'BinaryOperator' and e['op'] == '='):
-            l = ar.render(ar.N((e.get('args') or e.get('c'))[0]))
-            if l.replace(' ', '') == '*out++':
-                stores.append(e)
-    if len(stores) < 5:
-        run.broken('CONST', 'accumulate_rules stores', 'expected 5 stores through out, found %d' % len(stores), ar.where())
-    for e in stores:
-        fs = dom.facts_at(ar, e['i'])
-        ok = [f for f in fs if f[0] == 'out' and f[1] == '!=' and f[2] == 'lrend']
-        inst = 'accumulate_rules store@%s:%s' % (e['ln'], e['col'])
-        if ok:
-            run.held('CONST', inst, ar.loc(e), 'dominated by out != lrend')
+        if (e['k'] == 'CXXOperatorCallExpr' and (e.get('fq') or '').endswith('RuleEntry::operator=')) or (e['k'] == 'BinaryOperator' and e['op'] == '='):
+            l = ar.strip_all_casts((e.get('args') or e.get('c'))[0])
+            if l['k'] == 'UnaryOperator' and l['op'] == '*':
+                x = ar.strip_all_casts(l['c'][0])
+                if x['k'] == 'UnaryOperator' and x['op'] in ('post++', 'pre++'):
+                    x = ar.strip_all_casts(x['c'][0])
+                if x['k'] == 'DeclRefExpr' and x.get('vid') is not None and 'RuleEntry *' in (x.get('t') or ''):
+                    stores.append((e, x))
+    ovs = {x['vid'] for _, x in stores}
+    if len(stores) < 4 or len(ovs) != 1:
+        run.broken('CONST', 'accumulate_rules stores', 'expected at least 4 stores through one output cursor, found %d through %d variables' % (len(stores), len(ovs)), ar.where())
+    else:
+        ov = next(iter(ovs))
+        on = stores[0][1]['d'].split('::')[-1]
+        od = bound = None
+        for _, e in ar.elements():
+            if e['k'] == 'DeclStmt':
+                for d_ in e.get('decls', []):
+                    if d_.get('vid') == ov:
+                        od = d_
+                    elif d_.get('init') is not None:
+                        i_ = ar.strip_all_casts(d_['init'])
+                        if i_['k'] == 'BinaryOperator' and i_['op'] == '+' and ar.strip_all_casts(i_['c'][0]).get('vid') == ov and dom._cval(ar, i_['c'][1]) == mr:
+                            bound = d_
+        otxt = ar.render(od['init'], resolve=True) if od and od.get('init') is not None else ''
+        if bound is None:
+            run.violated('CONST', 'accumulate_rules lrend', ar.where(), 'no bound `%s + MAX_RULES` (%d) is computed for the output cursor of accumulate_rules' % (on, mr))
         else:
-            run.violated('CONST', inst, ar.loc(e), 'store through `out` without the dominating `out != lrend` bound: more than MAX_RULES entries '
-                         'overflow Rules::m_rules', {'facts': [f[:3] for f in fs]})
+            run.held('CONST', 'accumulate_rules lrend', ar.where(), '%s = %s + MAX_RULES' % (bound['n'], on), False)
+        if 'm_rules' in otxt and ('MAX_RULES' in otxt or str(mr) in otxt) and 'm_begin' in otxt:
+            run.held('CONST', 'accumulate_rules out', ar.where(), otxt, False)
+        else:
+            run.violated('CONST', 'accumulate_rules out', ar.where(), 'the output cursor starts at %s, expected the half of m_rules (m_rules / m_rules + MAX_RULES) that m_begin does not use' % otxt)
+        for e, _x in stores:
+            fs = dom.facts_at(ar, e['i'])
+            ok = bound is not None and [f for f in fs if f[0] == on and f[1] == '!=' and f[2] == bound['n']]
+            inst = 'accumulate_rules store@%s:%s' % (e['ln'], e['col'])
+            if ok:
+                run.held('CONST', inst, ar.loc(e), 'dominated by %s != %s' % (on, bound['n']))
+            else:
+                run.violated('CONST', inst, ar.loc(e), 'store through `%s` without the dominating `%s != <start + MAX_RULES>` bound: more than MAX_RULES entries '
+                             'overflow Rules::m_rules' % (on, on), {'facts': [f[:3] for f in fs]})
     # readRules: sort <= 63 (== MAX_SLOTS-1)
     rr = fx.one('graphite2::Pass::readRules')
     found = None
@@ -479,39 +492,40 @@ def recursion(run, fx):
 # ---------------------------------------------------------------------------------------- LOOPLIMIT
 def looplimit(run, fx):
     rg = fx.one('graphite2::Pass::runGraphite')
-    _, d = find_decl(rg, 'lc')
+    # the counter: the integer local initialised from m_iMaxLoop
+    d = None
+    for _, e in rg.elements():
+        if e['k'] == 'DeclStmt':
+            for x in e.get('decls', []):
+                if x.get('init') is not None and rg.render(rg.strip_all_casts(x['init'])) == 'this->m_iMaxLoop':
+                    d = x
     if d is None:
-        raise AnalysisBroken('Pass::runGraphite: loop counter lc not found')
-    if rg.render(d['init']) == 'this->m_iMaxLoop':
-        run.held('LOOPLIMIT', 'counter init', rg.where(), 'lc = m_iMaxLoop', False)
-    else:
-        run.violated('LOOPLIMIT', 'counter init', rg.where(), 'loop counter starts at %s, not m_iMaxLoop' % rg.render(d['init']))
-    # the advance test consults --lc == 0
-    dec = [e for _, e in rg.elements() if e['k'] == 'UnaryOperator' and e['op'] == 'pre--' and rg.render(rg.N(e['c'][0])) == 'lc']
-    # the do-while back edge must be reachable from findNDoRule only through the block holding the test chain
+        run.violated('LOOPLIMIT', 'counter init', rg.where(), 'Pass::runGraphite has no loop counter initialised from m_iMaxLoop')
+        return
+    cv, cn = d['vid'], d['n']
+    run.held('LOOPLIMIT', 'counter init', rg.where(), '%s = m_iMaxLoop' % cn, False)
+    dec = [e for _, e in rg.elements() if ((e['k'] == 'UnaryOperator' and e['op'] in ('pre--', 'post--')) or (e['k'] == 'CompoundAssignOperator' and e['op'] == '-='))
+           and rg.strip_all_casts(e['c'][0]).get('vid') == cv]
     fnd = calls_in(rg, 'graphite2::Pass::findNDoRule')
-    backs = [b for b in rg.blocks if (rg.blocks[b].get('term') or {}).get('k') == 'DoStmt']
-    if not dec or not fnd or not backs:
+    if not dec or not fnd:
         run.violated('LOOPLIMIT', 'counter consulted', rg.where(), 'the rule loop no longer decrements/consults the per-pass loop counter '
-                     '(--lc == 0) between two rule applications')
+                     'between two rule applications')
     else:
-        # every path findNDoRule -> back edge passes the block evaluating `s == highwater()` (start of the chain);
-        # and the --lc decrement lies on the path where neither highwater test fired
+        # the decrement lies on the path where neither high-water test fired; a zero counter forces the cursor to the high-water mark
         decb = rg.block_of[dec[0]['i']]
         fs = dom.facts_at_block(rg, decb)
         ok1 = any('highwater()' in f[2] and f[1] == '!=' for f in fs) or any('highwater()' in f[0] and f[1] == '!=' for f in fs)
         ok2 = any('highpassed()' in f[0] and f[1] == '==' and f[2] == '0' for f in fs)
-        # the forced advance: under !lc, s = highwater()
-        forced = [e for _, e in rg.elements() if e['k'] == 'BinaryOperator' and e['op'] == '=' and rg.render(rg.N(e['c'][0])) == 's'
-                  and 'highwater()' in rg.render(rg.N(e['c'][1]))]
+        forced = [e for _, e in rg.elements() if e['k'] == 'BinaryOperator' and e['op'] == '=' and rg.strip_all_casts(e['c'][0])['k'] == 'DeclRefExpr'
+                  and 'highwater()' in rg.render(rg.N(e['c'][1])) and not rg.N(e['c'][1]).get('args')]
         okf = False
         for e in forced:
             ff = dom.facts_at(rg, e['i'])
-            if any(f[0] == 'lc' and f[1] == '==' and f[2] == '0' for f in ff):
+            if any(f[0] == cn and f[1] == '==' and f[2] == '0' for f in ff):
                 okf = True
         if ok1 and ok2 and okf:
-            run.held('LOOPLIMIT', 'counter consulted', rg.loc(dec[0]), '--lc evaluated whenever the cursor did not pass the high-water mark; '
-                     'lc == 0 forces s = highwater()')
+            run.held('LOOPLIMIT', 'counter consulted', rg.loc(dec[0]), '--%s evaluated whenever the cursor did not pass the high-water mark; '
+                     '%s == 0 forces s = highwater()' % (cn, cn))
         else:
             run.violated('LOOPLIMIT', 'counter consulted', rg.loc(dec[0]), 'loop limit not enforced: decrement reached only under %s; forced advance %s'
                          % ([f[:3] for f in fs], okf))
